@@ -3,6 +3,8 @@
 // httpTimeout only. The whole agent (run.NewLoaderFromConfigFile, StartOrchestrator, LaunchInputs, shutdownInputs(); Shutdown())
 // runs with one datadog output against a scripted local HTTP intake held in one state at the moment of the stop.
 //
+// States of the intake: ok, hang (never answers), e500, close, slow, redirect, mixed, halfbody (error status, endless body).
+//
 // Oracle: (1) the stop returns within ConfiguredStopBound + httpTimeout + 10 s, an overrun being a violation only if agent
 // goroutines are parked in slog-agent code; (2) after the stop every record of a connection that ended with a clean EOF is in
 // the body of a request the intake answered 2xx, or in a chunk file of the queue directory; (3) a second generation on the same
@@ -34,7 +36,7 @@ import (
 )
 
 type ddCombo struct {
-	State  string `json:"state"` // ok | hang | e500 | close | slow | redirect | mixed
+	State  string `json:"state"` // ok | hang | e500 | close | slow | redirect | mixed | halfbody
 	Load   string `json:"load"`  // few | many
 	StopMs int    `json:"stop_ms"`
 	Seed   int    `json:"seed"`
@@ -47,10 +49,10 @@ func (cb ddCombo) id() string {
 func buildDDCombos(c *vkit.Ctx) []ddCombo {
 	var out []ddCombo
 	for s := 0; s < c.N(1, 4); s++ {
-		for _, st := range []string{"ok", "hang", "e500", "close", "slow", "redirect", "mixed"} {
+		for _, st := range []string{"ok", "hang", "e500", "close", "slow", "redirect", "mixed", "halfbody"} {
 			for _, ld := range []string{"few", "many"} {
 				for _, sp := range []int{0, 40} {
-					if c.Quick() && st != "hang" && (len(st)+len(ld)+sp/40+int(c.Seed))%2 != 0 {
+					if c.Quick() && st != "hang" && st != "halfbody" && (len(st)+len(ld)+sp/40+int(c.Seed))%2 != 0 {
 						continue
 					}
 					out = append(out, ddCombo{State: st, Load: ld, StopMs: sp, Seed: s})
@@ -145,6 +147,23 @@ func (in *ddIntake) handle(w http.ResponseWriter, r *http.Request) {
 			if conn, _, err := hj.Hijack(); err == nil {
 				_ = conn.Close()
 			}
+		}
+	case "halfbody":
+		// an error status with its headers at once, and a body that never ends: the client is reading the answer when the
+		// stop arrives (seeded c18-s7: only the wait for the response HEADERS was bounded)
+		in.mu.Lock()
+		rq.Status = 503
+		in.reqs = append(in.reqs, rq)
+		in.mu.Unlock()
+		w.Header().Set("Content-Length", "4096")
+		w.WriteHeader(503)
+		_, _ = w.Write([]byte("partial answer"))
+		if fl, ok := w.(http.Flusher); ok {
+			fl.Flush()
+		}
+		select {
+		case <-r.Context().Done():
+		case <-in.release:
 		}
 	case "hang":
 		in.mu.Lock()
@@ -370,7 +389,7 @@ func runDD(c *vkit.Ctx, attempt int) (again bool) {
 				}
 			}
 		}
-		if cb.State == "hang" && gen == 0 {
+		if (cb.State == "hang" || cb.State == "halfbody") && gen == 0 {
 			// place the stop in the intended phase: a request is waiting for an answer that never comes
 			for dl := time.Now().Add(3 * time.Second); time.Now().Before(dl) && atomic.LoadInt64(&in.inFlight) == 0; {
 				time.Sleep(2 * time.Millisecond)
